@@ -70,9 +70,13 @@ def shuffled(rng, ds):
     return d
 
 
-def compare(base, other, feats, what, fails, **kw):
-    if (base["error"] is None) != (other["error"] is None):
-        fails.append({"kind": "property", "what": f"fit outcome differs: {what}", "base": base["error"] or "ok", "variant": other["error"] or "ok", **kw})
+def compare(base, other, feats, what, fails, expect_error=None, **kw):
+    """`expect_error`: for a subset of the features of a rejected base fit, whether the subset contains a feature that is
+    rejected on its own (then the subset must be rejected too, otherwise it must be accepted)"""
+    base_err = (base["error"] is not None) if expect_error is None else expect_error
+    if base_err != (other["error"] is not None):
+        fails.append({"kind": "property", "what": f"fit outcome differs: {what}", "base": base["error"] or "ok", "variant": other["error"] or "ok",
+                      "expected_rejection": base_err, **kw})
         return
     if base["error"] is not None:
         return
@@ -98,11 +102,24 @@ def check_case(rng, r, stats, tier):
     allf = ds["quantitative"] + ds["qualitative"] + ds["ordinal"]
     base = sig_inprocess(ds, cfg, what)
     stats["fits"] += 1
+    # a rejected base fit (AssertionError on the input of one feature, e.g. a value never observed) says nothing about the
+    # other features: the features that are rejected on their own are looked up, a subset must be rejected iff it
+    # contains one of them, and a rejection that no single feature explains is an interaction between features
+    culprits = None
+    if base["error"] is not None:
+        singles = {f: sig_inprocess(restrict(ds, [f]), cfg, what) for f in allf}
+        stats["fits"] += len(allf)
+        stats["rejected_base"] = stats.get("rejected_base", 0) + 1
+        culprits = [f for f in allf if singles[f]["error"] is not None]
+        if not culprits:
+            fails.append({"kind": "property", "what": "fit outcome differs: rejected with all features although every feature is accepted alone",
+                          "base": base["error"], "variant": "ok"})
     # (a) feature subsets: each feature alone / a random subset
     for feats in ([[f] for f in rng.sample(allf, min(2, len(allf)))] + [rng.sample(allf, rng.randint(1, len(allf)))]):
         v = sig_inprocess(restrict(ds, feats), cfg, what)
         stats["fits"] += 1
-        compare(base, v, feats, "alone / in a subset vs with all features", fails, subset=feats)
+        compare(base, v, feats, "alone / in a subset vs with all features", fails, subset=feats,
+                expect_error=None if culprits is None else any(f in culprits for f in feats))
     # (b) order of the feature lists and of the DataFrame columns
     v = sig_inprocess(shuffled(rng, ds), cfg, what)
     stats["fits"] += 1
